@@ -180,6 +180,22 @@ def handle : List String → String
       let d := Hc.CfgCrash.crashThenStart (hf == 1) ⟨some v, some h0⟩ h k
       s!"version={d.version.getD 0} hash={d.hash.getD 0}"
     | _, _, _, _, _ => "bad-op"
+  | ["startf", flags, restructured] =>
+    -- a storage left by a first start and one pairing; then a restart during which the reads named by the four flags
+    -- (id, number, hash, own entity) fail; `restructured` = 1: the restart comes with another accessory structure
+    match flags.toList with
+    | [u, v, h, e] =>
+      let c : StartCfg := ⟨[48,48,49,48,50,48,48,51], [], 8, false, 10000, 20000, .obj []⟩
+      let s := run H ({} : St String) [.start c, .pair 1 501]
+      let c' : StartCfg := { c with freshId := 10001, freshKey := 20001, db := if restructured == "1" then .obj [(1, .leaf 0)] else .obj [] }
+      let (s', o) := startF H s c' { uuid := u == '1', version := v == '1', configHash := h == '1', entity := e == '1' }
+      let out := match o with | none => "error" | some .started => "started" | some _ => "refused"
+      let idS := if s'.store.uuid == some 10000 then "same" else "other"
+      let keyS := match lookup (s'.store.uuid.getD 0) s'.store.entities with
+        | some d => if d.pub == 20000 && d.priv == some 20000 then "same" else "other"
+        | none => "none"
+      s!"{out} id={idS} key={keyS} entities={s'.store.entities.length} version={s'.store.version.getD 0}"
+    | _ => "bad-op"
   | _ => "bad-op"
 
 end Hc.Drv.Config
